@@ -1470,6 +1470,13 @@ M('C16', 'LanczosEvolution.run: default of normalize from the imaginary part (ro
   "            normalize = np.real(delta) == 0.0", "            normalize = np.imag(delta) != 0.0",
   'KRYLOV-default-doc')
 
+M('C17', 'create_group_for_obj returns early for the root path without memorizing (round-5 seed a)', HIO,
+  "        if path == '/':\n            gr = self.h5group[path]\n        else:\n            gr = self.h5group.create_group(path)", "        if path == '/':\n            return self.h5group[path], path\n        gr = self.h5group.create_group(path)",
+  'HDF5-memo-save')
+M('C17', 'Config.save_hdf5 saves as_dict() (round-5 seed b)', 'tenpy/tools/params.py',
+  "        type_repr = hdf5_saver.save_dict_content(self.options, h5gr, subpath)", "        type_repr = hdf5_saver.save_dict_content(self.as_dict(), h5gr, subpath)",
+  'HDF5-field')
+
 # ---------------------------------------------------------------- C16 / C19
 M('C16', 'GMRES restart: relative residual norm used for normalisation (round-3 seed b)', KRY,
   """        self.total_error.append([npc.norm(self.rs[-1]) / self.b_norm])
